@@ -6,6 +6,7 @@ import RsjModel.Parser
 import RsjProofs.ParserSpans3
 import RsjProofs.ParserRun10
 import RsjProofs.ParserSlice
+import RsjProofs.ParserRun24
 namespace Rsj.Parser
 
 /-! ## The precedence table
@@ -153,15 +154,15 @@ example : parse [tk (.ident "61") 0 1, tk (.simple .Plus) 2 3, tk .eof 3 3] =
 subexpression (`RsjModel/Printer.lean`); `Expr.erase` forgets spans and `Paren` nodes.  Token
 spans play no role: the statements hold for *every* token list with the printed kinds. -/
 
-/-- **Full statement (not yet proved in general).** Every tree the parser can produce, printed with
-    minimal parentheses, parses back to the same tree. -/
+/-- **Full statement** (proved below: `C15_print_parse`). Every tree the parser can produce, printed
+    with minimal parentheses, parses back to the same tree. -/
 def C15_print_parse_full : Prop :=
   ∀ (toks0 : List Token) (e : Expr), parse toks0 = .ok e →
     ∀ toks : List Token, toks.map (·.kind) = printMin e ++ [.eof] →
       ∃ e', parse toks = .ok e' ∧ e'.erase = e.erase
 
-/-- **Full statement (not yet proved in general).** … and so does its fully parenthesised form:
-    a text means the same as its fully parenthesised form. -/
+/-- **Full statement** (proved below: `C15_print_full_parse`). … and so does its fully
+    parenthesised form: a text means the same as its fully parenthesised form. -/
 def C15_print_full_parse_full : Prop :=
   ∀ (toks0 : List Token) (e : Expr), parse toks0 = .ok e →
     ∀ toks : List Token, toks.map (·.kind) = printFull e ++ [.eof] →
@@ -172,9 +173,10 @@ def C15_print_full_parse_full : Prop :=
     4 unary and 19 binary operators, field access `e.f`, indexing `e[i]`, calls `f(a, n = b)` with
     positional and named arguments and `tailstrict`, `e in super`, `super.f` and `super[i]`
     (`Frag`), nested arbitrarily: the minimal printing parses back to the tree.
-    Missing for the full statement: the other postfix forms (slices, object extension),
-    the prefix forms that extend to the right (`local`, `if`, `function`, `assert`, `import*`,
-    `error`), arrays, objects and comprehensions (covered by the correspondence check only). -/
+    Not in `Frag`: the other postfix forms (slices, object extension), the prefix forms that extend
+    to the right (`local`, `if`, `function`, `assert`, `import*`, `error`), arrays, objects and
+    comprehensions — these are covered by the second fragment `Frag2` (`C15_print_parse_partial2`)
+    and by the full statement `C15_print_parse` below. -/
 theorem C15_print_parse_partial {e : Expr} (h : Frag e) (toks : List Token)
     (hk : toks.map (·.kind) = printMin e ++ [.eof]) :
     ∃ e', parse toks = .ok e' ∧ e'.erase = e.erase :=
@@ -196,6 +198,138 @@ theorem C15_full_parens_same_tree {e : Expr} (h : Frag e) (toks1 toks2 : List To
   obtain ⟨e1, p1, q1⟩ := C15_print_parse_partial h toks1 h1
   obtain ⟨e2, p2, q2⟩ := C15_print_full_parse_partial h toks2 h2
   exact ⟨e1, e2, p1, p2, by rw [q1, q2]⟩
+
+
+/-! ## Print / re-parse: all syntactic forms
+
+`Frag2 e` (`RsjProofs/ParserRun19.lean`): every node of `e` is well-formed in the sense of `NodeWF` —
+`local` has at least one bind, a bind without parameter list has no parameters (`params: None` of
+the Rust AST is `hasParams = false`, `params = []`), a comprehension begins with a `for`.  There is
+**no restriction on the syntactic forms**: atoms, parentheses, the 4 unary and 19 binary
+operators, `e in super`, `super.f`, `super[i]`, field access, indexing, slices `e[a:b:c]` in every
+colon layout the printer emits (`:` / `::`, optional operands), calls with positional and named
+arguments and `tailstrict`, object extension `e { … }`, object literals (fields with identifier,
+string and computed names, `:` `::` `:::` `+:` `+::` `+:::`, methods `f(p, q = d): …`, object
+locals with and without parameters, asserts with and without message), object comprehensions
+`{ local a = …, [k]: v, local b = … for x in xs if c }`, arrays, array comprehensions, and the
+prefix forms that extend to the right — `local`, `if/then[/else]`, `function`, `assert`,
+`import`, `importstr`, `importbin`, `error` — which `printMin` parenthesises exactly when
+something follows that they would swallow (left operand of a binary operator, base of a postfix
+form, operand of `in super`, `then`-branch without `else` directly before an `else`). -/
+
+/-- **C15 print_parse (all forms).** For every tree whose nodes are well-formed (`Frag2`), the
+    minimal printing parses back to the tree (up to spans and `Paren` nodes), for *every* token
+    list with the printed kinds. -/
+theorem C15_print_parse_partial2 {e : Expr} (h : Frag2 e) (toks : List Token)
+    (hk : toks.map (·.kind) = printMin e ++ [.eof]) :
+    ∃ e', parse toks = .ok e' ∧ e'.erase = e.erase :=
+  parse_printMin_frag2 h toks hk
+
+/-- **C15 print_full_parse (all forms).** … and so does the printing with every subexpression
+    parenthesised (which uses the `::` slice layouts). -/
+theorem C15_print_full_parse_partial2 {e : Expr} (h : Frag2 e) (toks : List Token)
+    (hk : toks.map (·.kind) = printFull e ++ [.eof]) :
+    ∃ e', parse toks = .ok e' ∧ e'.erase = e.erase :=
+  parse_printFull_frag2 h toks hk
+
+/-- minimal and full printing of a well-formed tree parse to the same tree -/
+theorem C15_full_parens_same_tree2 {e : Expr} (h : Frag2 e) (toks1 toks2 : List Token)
+    (h1 : toks1.map (·.kind) = printMin e ++ [.eof]) (h2 : toks2.map (·.kind) = printFull e ++ [.eof]) :
+    ∃ e1 e2, parse toks1 = .ok e1 ∧ parse toks2 = .ok e2 ∧ e1.erase = e2.erase := by
+  obtain ⟨e1, p1, q1⟩ := C15_print_parse_partial2 h toks1 h1
+  obtain ⟨e2, p2, q2⟩ := C15_print_full_parse_partial2 h toks2 h2
+  exact ⟨e1, e2, p1, p2, by rw [q1, q2]⟩
+
+/-- the operator fragment is part of the second fragment (so the `_partial` theorems above are
+    instances of the `_partial2` ones) -/
+theorem C15_frag_sub_frag2 {e : Expr} (h : Frag e) : Frag2 e := h.frag2
+
+/-- **C15 parser_output_well_formed.** Every tree the parser produces is in the second fragment:
+    all its nodes are well-formed. -/
+theorem C15_parser_output_well_formed {toks : List Token} {e : Expr} (h : parse toks = .ok e) : Frag2 e :=
+  parse_ok_frag2 h
+
+/-- **C15 print_parse — the full statement.** Every tree the parser can produce, printed with
+    minimal parentheses, parses back to the same tree (up to spans and `Paren` nodes). -/
+theorem C15_print_parse : C15_print_parse_full :=
+  fun _ _ h toks hk => parse_printMin_frag2 (parse_ok_frag2 h) toks hk
+
+/-- **C15 print_full_parse — the full statement.** Every tree the parser can produce, printed with
+    every subexpression parenthesised, parses back to the same tree: a text means the same as its
+    fully parenthesised form. -/
+theorem C15_print_full_parse : C15_print_full_parse_full :=
+  fun _ _ h toks hk => parse_printFull_frag2 (parse_ok_frag2 h) toks hk
+
+/-- token with dummy span -/
+def tk0 (k : TokKind) : Token := ⟨k, ⟨0, 0⟩⟩
+
+/-- `local f(a, b = 2) = a + b; if c then [x for x in y if x]
+     else o { k: 1, [e]+: 2, local z = 3, assert z : "m", m(p):: p }[1::2]` -/
+def exampleToks : List Token :=
+  [tk0 (sim .Local), tk0 (.ident "66"), tk0 (sim .LeftParen), tk0 (.ident "61"), tk0 (sim .Comma), tk0 (.ident "62"),
+   tk0 (sim .Eq), tk0 (.number "32_0"), tk0 (sim .RightParen), tk0 (sim .Eq), tk0 (.ident "61"), tk0 (sim .Plus),
+   tk0 (.ident "62"), tk0 (sim .Semicolon), tk0 (sim .If), tk0 (.ident "63"), tk0 (sim .Then), tk0 (sim .LeftBracket),
+   tk0 (.ident "78"), tk0 (sim .For), tk0 (.ident "78"), tk0 (sim .In), tk0 (.ident "79"), tk0 (sim .If),
+   tk0 (.ident "78"), tk0 (sim .RightBracket), tk0 (sim .Else), tk0 (.ident "6f"), tk0 (sim .LeftBrace),
+   tk0 (.ident "6b"), tk0 (sim .Colon), tk0 (.number "31_0"), tk0 (sim .Comma), tk0 (sim .LeftBracket),
+   tk0 (.ident "65"), tk0 (sim .RightBracket), tk0 (sim .PlusColon), tk0 (.number "32_0"), tk0 (sim .Comma),
+   tk0 (sim .Local), tk0 (.ident "7a"), tk0 (sim .Eq), tk0 (.number "33_0"), tk0 (sim .Comma), tk0 (sim .Assert),
+   tk0 (.ident "7a"), tk0 (sim .Colon), tk0 (.string "6d"), tk0 (sim .Comma), tk0 (.ident "6d"), tk0 (sim .LeftParen),
+   tk0 (.ident "70"), tk0 (sim .RightParen), tk0 (sim .ColonColon), tk0 (.ident "70"), tk0 (sim .RightBrace),
+   tk0 (sim .LeftBracket), tk0 (.number "31_0"), tk0 (sim .ColonColon), tk0 (.number "32_0"), tk0 (sim .RightBracket),
+   tk0 .eof]
+
+/-- non-vacuity of `C15_print_parse` / `C15_print_full_parse` / `C15_parser_output_well_formed` (and of the
+    hypothesis `Frag2` of the `_partial2` theorems): a text with `local` (with a function bind), `if`, an
+    array comprehension, object extension (plain, computed `+:`, method and hidden fields, object
+    local, assert) and a `::` slice parses; its tree is in `Frag2` -/
+example : ∃ e, parse exampleToks = .ok e ∧ Frag2 e := by
+  refine ⟨_, rfl, ?_⟩
+  exact parse_ok_frag2 (toks := exampleToks) rfl
+
+/-- `local x = 1; x` -/
+def exampleLocal : Expr :=
+  .local_ [.mk ⟨"78", .zero⟩ false [] .zero (.number "31_0" .zero)] (.ident ⟨"78", .zero⟩ .zero) .zero
+
+/-- minimal parenthesisation of a prefix form: as *left* operand of a binary operator it must be
+    parenthesised — `(local x = 1; x) + 2` … -/
+example : printMin (.binary exampleLocal .Add (.number "32_0" .zero) .zero) =
+    [sim .LeftParen, sim .Local, .ident "78", sim .Eq, .number "31_0", sim .Semicolon, .ident "78", sim .RightParen,
+      sim .Plus, .number "32_0"] := by
+  simp [printMin, pr, sub, parens, exampleLocal, prBinds, prBind]; decide
+
+/-- … as *right* operand it need not be — `2 + local x = 1; x` -/
+example : printMin (.binary (.number "32_0" .zero) .Add exampleLocal .zero) =
+    [.number "32_0", sim .Plus, sim .Local, .ident "78", sim .Eq, .number "31_0", sim .Semicolon, .ident "78"] := by
+  simp [printMin, pr, sub, exampleLocal, prBinds, prBind]; decide
+
+/-- dangling `else`: `if c then (if d then 1) else 2` keeps its parentheses -/
+example : printMin (.ite_ (.ident ⟨"63", .zero⟩ .zero)
+      (.ite_ (.ident ⟨"64", .zero⟩ .zero) (.number "31_0" .zero) none .zero) (some (.number "32_0" .zero)) .zero) =
+    [sim .If, .ident "63", sim .Then, sim .LeftParen, sim .If, .ident "64", sim .Then, .number "31_0",
+      sim .RightParen, sim .Else, .number "32_0"] := by
+  simp [printMin, pr, sub, parens]
+
+/-- both trees of the two examples above are in `Frag2` (built by hand) -/
+example : Frag2 (.binary exampleLocal .Add (.number "32_0" .zero) .zero) ∧
+    Frag2 (.binary (.number "32_0" .zero) .Add exampleLocal .zero) := by
+  have hl : Frag2 exampleLocal := F2.local_ _ (by simp) (by
+    intro b hb
+    simp only [List.mem_singleton] at hb
+    subst hb
+    refine ⟨fun _ => rfl, ?_⟩
+    intro x hx
+    simp [Bind.exprs, Bind.params, Bind.value, paramsExprs] at hx
+    subst hx
+    exact F2.leaf trivial rfl rfl) (F2.leaf trivial rfl rfl)
+  exact ⟨F2.binary _ _ hl (F2.leaf trivial rfl rfl), F2.binary _ _ (F2.leaf trivial rfl rfl) hl⟩
+
+/-- a tree outside `Frag2` (never produced by the parser): `local` without binds prints as
+    `local ; x`, which does not parse -/
+example : ¬ Frag2 (.local_ [] (.ident ⟨"78", .zero⟩ .zero) .zero) := by
+  intro h
+  cases h with
+  | mk _ hwf _ _ _ => exact hwf.1 rfl
 
 /-- **C15 binary_left_assoc.** `a op1 b op2 c` (atoms `a b c`, any two of the 19 binary
     operators) groups to the left, `(a op1 b) op2 c`, exactly when `op2` does not bind tighter
@@ -298,3 +432,17 @@ open Rsj.Parser in
 #print axioms C15_slice_layouts
 open Rsj.Parser in
 #print axioms C15_slice_operand_ok
+open Rsj.Parser in
+#print axioms C15_print_parse_partial2
+open Rsj.Parser in
+#print axioms C15_print_full_parse_partial2
+open Rsj.Parser in
+#print axioms C15_full_parens_same_tree2
+open Rsj.Parser in
+#print axioms C15_frag_sub_frag2
+open Rsj.Parser in
+#print axioms C15_parser_output_well_formed
+open Rsj.Parser in
+#print axioms C15_print_parse
+open Rsj.Parser in
+#print axioms C15_print_full_parse
